@@ -272,3 +272,7 @@ ben('C12', B, "        if 0 <= xval <= line_length:", "        if xval >= 0 and 
 # ---------------------------------------------------------------- C05 R05.3 zero total (semantic)
 brk('C05', P, "        if self._length == 0:\n            self._lengths = lengths  # all lengths are 0.\n        else:\n            self._lengths = [each / self._length for each in lengths]", "        self._lengths = [each / self._length for each in lengths]", 'zero-total guard removed')
 ben('C05', P, "        if self._length == 0:\n            self._lengths = lengths  # all lengths are 0.\n        else:\n            self._lengths = [each / self._length for each in lengths]", "        total = self._length\n        self._lengths = [each / total for each in lengths] if total else lengths", 'guard by truthiness of a local')
+
+brk('C05', P, "        assert self.iscontinuous()\n        return self.start == self.end", "        assert self.iscontinuous()\n        return self.start == self[0].start", 'isclosed compares start with itself')
+brk('C05', P, "    def isclosedac(self):\n        assert len(self) != 0\n        return self.start == self.end", "    def isclosedac(self):\n        assert len(self) != 0\n        return self.start != self.end", 'isclosedac inverted')
+ben('C05', P, "        assert self.iscontinuous()\n        return self.start == self.end", "        assert self.iscontinuous()\n        return self._segments[-1].end == self._segments[0].start", 'isclosed through the store')
